@@ -123,3 +123,13 @@ Theorem C10_wildcards_crossing_unordered : forall a b, fn_like a = true -> fn_li
   dep_lt a b = false /\ dep_lt b a = false.
 Proof. exact dep_lt_crossing. Qed.
 Print Assumptions C10_wildcards_crossing_unordered.
+
+(* which of the three generated strategies serves a rank: the two decisions of generate_dependent_dispatch, regenerated
+   from recode.py on every run, are the ones the dispatch model's choose_strategy is built from *)
+Theorem C10_leaf_keyable : forall distinct nkeyed nfeat, keyable_src distinct nkeyed nfeat = keyable_decide distinct nkeyed nfeat.
+Proof. exact keyable_agree. Qed.
+Print Assumptions C10_leaf_keyable.
+
+Theorem C10_leaf_final_choice : forall haskey exclusive, final_src haskey exclusive = final_choice haskey exclusive.
+Proof. exact final_choice_agree. Qed.
+Print Assumptions C10_leaf_final_choice.
